@@ -24,7 +24,9 @@ Kinds == {"ifT", "ifElseT", "ifElseE", "elif1", "elif2", "while", "fromTo", "fro
           "whileBrk", "fromBrk", "fnWhileRet",
           \* a condition whose right operand is guarded by the left one: `v != 1 && 6 / (v - 1) > 0` - evaluated for v = 1 it fails
           "ifGuard"}
-Terms == {"fall", "break", "continue", "ret", "assert", "div0", "oob"}
+\* "retmod": a bare `return ` outside of any function, inside a block: the module stops there (no later statement runs, the
+\* program ends normally, no block frame stays behind)
+Terms == {"fall", "break", "continue", "ret", "assert", "div0", "oob", "retmod"}
 LoopKinds == {"while", "fromTo", "fromThru", "fromStep", "fromAnon", "fromColl", "whileX", "fromToX", "fromStepX", "fromEmpty", "fromVars", "fromThruVar", "whileSlot", "fnWhile", "whileBrk", "fromBrk", "fnWhileRet"}
 
 VARIABLES path, term, pad, done
@@ -47,6 +49,7 @@ CtxAt(p, d, ctx) == IF d > Len(p) THEN ctx ELSE CtxAt(p, d + 1, Enter(ctx, p[d],
 
 TermOk(t, ctx) == CASE t \in {"break", "continue"} -> ctx.inloop
                     [] t = "ret" -> ctx.infn
+                    [] t = "retmod" -> ~ctx.infn
                     [] OTHER -> TRUE
 
 CV(ctx) == IF ctx.lv = "" THEN V("one") ELSE V(ctx.lv)
@@ -58,6 +61,7 @@ TermStmts(t) ==
       [] t = "break" -> <<Brk>>
       [] t = "continue" -> <<Cont>>
       [] t = "ret" -> <<Ret(I(99))>>
+      [] t = "retmod" -> <<RetVoid>>
       [] t = "assert" -> <<Assert(Bin("==", V("one"), I(2)))>>
       [] t = "div0" -> <<Let("q", I(0)), Print(Bin("/", I(1), V("q")))>>
       [] t = "oob" -> <<LetT("xs", "[int...]", List(<<I(1), I(2)>>)), Let("k5", I(5)), Print(Idx(V("xs"), V("k5")))>>
@@ -134,6 +138,8 @@ Init == path = <<>> /\ term = "" /\ pad \in BOOLEAN /\ done = FALSE
 Extend(k) == /\ ~done /\ Len(path) < MaxDepth
              /\ path' = Append(path, k) /\ UNCHANGED <<term, pad, done>>
 Finish(t) == /\ ~done /\ Len(path) >= 1 /\ (AllowInvalid \/ TermOk(t, CtxAt(path, 1, Ctx0)))
+             \* (a bare `return ` takes the next line as its operand: it has to be the last statement of its block)
+             /\ (t = "retmod" => ~pad /\ path[Len(path)] \notin {"whileBrk", "fromBrk", "fnWhileRet"})
              /\ term' = t /\ done' = TRUE /\ UNCHANGED <<path, pad>>
 Next == (\E k \in Kinds : Extend(k)) \/ (\E t \in Terms : Finish(t))
 
